@@ -209,7 +209,7 @@ def run_case(case, ctx):
                     sh[ax] = sg
                     try:
                         r_s, _ = reference(sh)
-                        noise = np.maximum(noise, np.abs(r_s - ref))
+                        noise = np.maximum(noise, core.probe_diff(r_s, ref))
                     except _Raised:
                         pass
             with np.errstate(invalid="ignore"):
